@@ -139,7 +139,8 @@ def expand_cases(draw, tier):
     for kind, count_key, base in (("markets", "numMarkets", {"class": "Market", "tickSize": 1.0, "marketPrice": 100.0}),
                                   ("agents", "numAgents", {"class": "TestAgent", "cashAmount": 1000, "assetVolume": 5})):
         for g in range(draw(st.integers(1, 4 if kind == "markets" else 3))):
-            name = f"{'MG' if kind == 'markets' else 'AG'}{g}"
+            # (group names that are prefixes of one another plus digits: member names are derived from them)
+            name = (["MG", "MG1", "MG10", "MG0"] if kind == "markets" else ["AG", "AG1", "AG10"])[g]
             own, n_own, own_range = draw(decl(count_key))
             entry = dict(own)
             n_inh = None
